@@ -132,8 +132,6 @@ theorem grid_bins_regular (g : Grid) :
     nlinarith
   · right; exact hw
 
-theorem ratioDist_comm_pos (raw c : Rat) : ratioDist raw c = ratioDist raw c := rfl
-
 /-- **Pretty width**: the chosen width is one of the candidates and no candidate is closer to the
     raw width `range / bin_count` (distance = ratio, i.e. |log|). -/
 theorem C07_pretty (raw : Rat) (cands : List Rat) (hne : cands ≠ []) :
